@@ -5,6 +5,7 @@ use serde_json::Value;
 mod alloclog;
 mod chain;
 mod common;
+mod fairness;
 mod framing;
 mod limits;
 mod outframe;
@@ -61,6 +62,7 @@ fn main() {
         "outframe" => outframe::run(tier),
         "limits" => limits::run(tier),
         "server" => server::run_c08(tier),
+        "fairness" => fairness::run(tier),
         "faults" => server::run_c09(tier),
         "streaming" => server::run_c10(tier),
         "chain" => chain::run_c06(tier),
@@ -78,6 +80,7 @@ fn replay(v: &Value, path: &str) -> i32 {
         "C06" | "C11" => chain::replay(v),
         "C17" => limits::replay(v),
         "C08" | "C09" | "C10" => server::replay(v),
+        "C18" => fairness::replay(v),
         _ => {
             eprintln!("MACHINERY: no replay handler for property `{prop}`");
             return 2;
